@@ -97,13 +97,19 @@ static void run_op(const std::vector<std::string> &w, const std::string &, out &
         }
         std::vector<uint8_t> f = gstuffing_v(vec.data(), vec.size(), ctx);
         size_t n = total_len(pieces);
-        o.result = std::to_string(f.capacity());
+        // Canonical observable (round 3, correction): the property fixes only that the buffer is large enough
+        // for every frame of that payload length (2n+4); a growth policy that allocates MORE (reserve with
+        // slack, a twin that rounds up) is not a violation, so the value compared with the model is
+        // min(capacity, 2n+4) - the model's vecBufSize - and each twin is judged on its own.
+        size_t cap = f.capacity();
         if (f.capacity() < 2 * n + 4) o.fail("self-sized buffer smaller than the worst-case frame 2n+4");
         if (pieces.size() == 1)
         {
             std::vector<uint8_t> g = gstuffing(igris::buffer((char *)bufs[0]->p, pieces[0].size()), ctx);
-            if (g.capacity() != f.capacity()) o.fail("gstuffing(buffer) sizes its buffer differently from gstuffing_v(vec)");
+            if (g.capacity() < 2 * n + 4) o.fail("gstuffing(buffer): self-sized buffer smaller than the worst-case frame 2n+4");
+            cap = std::min(cap, g.capacity());
         }
+        o.result = std::to_string(std::min(cap, 2 * n + 4));
         for (auto b : bufs) delete b;
         o.tag("self-sized");
         return;
@@ -285,7 +291,7 @@ static void gen(rng &r, const std::string &tier)
         const char *cs[3] = {"v1", "v0", "leg"}, *ks[3] = {"mark", "esc", "mix"};
         for (auto c : cs)
             for (auto k : ks)
-                printf("long %s %s %d %d\n", c, k, 307200 + (int)r.below(64), (int)r.below(1000000));
+                printf("long %s %s %d %d\n", c, k, ((th || k != ks[2]) ? 307200 : 100000) + (int)r.below(64), (int)r.below(1000000));
         for (auto c : cs)
             for (int n : {0, 1, 2, 255, 256, 257, 65535, 65536, 65537})
                 printf("long %s %s %d %d\n", c, ks[n % 3], n, (int)r.below(1000000));
